@@ -3,6 +3,7 @@ package main
 // Symbolic execution of one go/ssa function into a term DAG with obligations.
 
 import (
+	"os"
 	"fmt"
 	"go/constant"
 	"go/token"
@@ -12,6 +13,8 @@ import (
 
 	"golang.org/x/tools/go/ssa"
 )
+
+var debugLoops bool
 
 // ---------- values ----------
 
@@ -29,7 +32,8 @@ const (
 type Loc struct {
 	Kind   int
 	Ref    *Term      // LField: struct address; LCell: cell ref; LElem: backing array ref
-	Idx    *Term      // LElem: absolute index
+	Idx    *Term      // LElem: index relative to Off
+	Off    *Term      // LElem: offset of the slice in the backing array
 	Struct types.Type // LField: struct type
 	Field  int
 	Path   []pathStep // LElem/LGlobal/LCell: fields inside a by-value struct element
@@ -106,6 +110,7 @@ type Exec struct {
 	specMode    bool // evaluating a specification: no obligations, no assumptions
 	entryReach  *Term
 	globalsSeen map[*ssa.Global]*Term
+	globalAssumes []*Term // included in every obligation of the function
 }
 
 type retInfo struct {
@@ -142,6 +147,7 @@ type loopInfo struct {
 	iterHdr    map[ssa.Value]*Term // visited at header (havocked)
 	iterEntry  map[ssa.Value]*Term
 	modset     map[string]bool
+	freshOnly  map[string]bool
 }
 
 func NewExec(p *Program, fn *ssa.Function) *Exec {
@@ -238,6 +244,11 @@ type ExecResult struct {
 }
 
 func RunFunction(p *Program, fn *ssa.Function) (res *ExecResult) {
+	opaqueStrings = false
+	if c := p.ContractOf(fn); c != nil && c.Flags["opaque_strings"] {
+		opaqueStrings = true
+	}
+	defer func() { opaqueStrings = false }()
 	e := NewExec(p, fn)
 	res = &ExecResult{Exec: e}
 	defer func() {
@@ -254,9 +265,53 @@ func RunFunction(p *Program, fn *ssa.Function) (res *ExecResult) {
 		}
 	}()
 	e.run()
+	e.closedHeapAxioms()
 	res.Obls = e.obls
 	res.NAssumes = len(e.assumes)
 	return res
+}
+
+// closedHeapAxioms: every reference stored in an object of the entry heap points into the entry heap (quantified
+// form of the closed-heap assumption, for the components the function actually touched). Added to every obligation.
+func (e *Exec) closedHeapAxioms() {
+	names := e.entry.CompNames()
+	next0 := e.entry.next
+	for _, n := range names {
+		t := e.entry.comps[n]
+		if t == nil || !t.Sort.IsArray() {
+			continue
+		}
+		_, vs := t.Sort.ArrayParts()
+		r := BoundVar("r", SInt)
+		switch {
+		case strings.HasPrefix(n, "F$") || strings.HasPrefix(n, "C$"):
+			if f := refFact(Select(t, r), vs, next0); f != nil {
+				e.globalAssumes = append(e.globalAssumes, Forall([]*Term{r}, f, []*Term{Select(t, r)}))
+			}
+		case strings.HasPrefix(n, "E$") || strings.HasPrefix(n, "MV$"):
+			if !vs.IsArray() {
+				continue
+			}
+			ks, es := vs.ArrayParts()
+			k := BoundVar("k", ks)
+			if f := refFact(Select(Select(t, r), k), es, next0); f != nil {
+				e.globalAssumes = append(e.globalAssumes, Forall([]*Term{r, k}, f, []*Term{Select(Select(t, r), k)}))
+			}
+		}
+	}
+}
+
+func refFact(v *Term, s Sort, next0 *Term) *Term {
+	if _, ok := aliasSorts[s]; ok && (strings.HasPrefix(string(s), "P.") || strings.HasPrefix(string(s), "M.")) {
+		return Lt(RootOf(v), next0)
+	}
+	switch s {
+	case SSlice:
+		return And(Le(IntLit(0), SArr(v)), Lt(SArr(v), next0), Le(IntLit(0), SOff(v)), Le(IntLit(0), SLen(v)), Le(SLen(v), SCap(v)))
+	case SIface:
+		return Lt(RootOf(IVal(v)), next0)
+	}
+	return nil
 }
 
 func (e *Exec) run() {
@@ -317,6 +372,51 @@ func (e *Exec) assumeWF(v Val, t types.Type, st *State) {
 	}
 }
 
+// boundFor: references read out of a component that has not been written since function entry belong to the entry
+// heap (closed-heap assumption at entry); otherwise they are only known to be allocated by now.
+func (e *Exec) boundFor(comp string) *Term {
+	if comp != "" {
+		if srt, ok := allSorts[comp]; ok {
+			r := e.root()
+			if r.entry != nil && e.curState.Get(comp, srt) == r.entry.Get(comp, srt) {
+				return r.entry.next
+			}
+		}
+	}
+	return e.curState.next
+}
+
+func (e *Exec) compOfLoc(l *Loc) string {
+	switch l.Kind {
+	case LField:
+		if isStruct(l.Type) {
+			return ""
+		}
+		return fieldComp(l.Struct, l.Field)
+	case LElem:
+		return elemComp(l.elemSort())
+	case LCell:
+		if isStruct(l.Type) {
+			return ""
+		}
+		if _, ok := l.Type.Underlying().(*types.Array); ok {
+			return ""
+		}
+		return cellComp(sortOf(l.Type))
+	}
+	return ""
+}
+
+func (e *Exec) assumeWFBound(v Val, t types.Type, bound *Term) {
+	tm, ok := v.(*Term)
+	if !ok {
+		return
+	}
+	if f := wfTerm(tm, t, bound); f != True {
+		e.assume(Implies(e.curReachOrTrue(), f))
+	}
+}
+
 func (e *Exec) curReachOrTrue() *Term {
 	if e.curReach == nil {
 		return True
@@ -327,12 +427,17 @@ func (e *Exec) curReachOrTrue() *Term {
 func wfTerm(tm *Term, t types.Type, next *Term) *Term {
 	switch t.Underlying().(type) {
 	case *types.Pointer, *types.Map:
-		return Lt(tm, next)
+		if tm.Op == "" {
+			if v, ok := intVal(tm); ok && v == 0 {
+				return True
+			}
+		}
+		return Lt(RootOf(tm), next)
 	case *types.Slice:
 		return And(Le(IntLit(0), SOff(tm)), Le(IntLit(0), SLen(tm)), Le(SLen(tm), SCap(tm)), Le(IntLit(0), SArr(tm)), Lt(SArr(tm), next),
 			Implies(Eq(SArr(tm), IntLit(0)), Eq(SCap(tm), IntLit(0))), Le(SCap(tm), BigIntLit("1152921504606846976")))
 	case *types.Interface:
-		return And(Lt(IVal(tm), next), Implies(Eq(ITag(tm), IntLit(0)), Eq(IVal(tm), IntLit(0))), Le(IntLit(0), ITag(tm)))
+		return And(Lt(RootOf(IVal(tm)), next), Implies(Eq(ITag(tm), IntLit(0)), Eq(IVal(tm), IntLit(0))), Le(IntLit(0), ITag(tm)))
 	case *types.Basic:
 		b := t.Underlying().(*types.Basic)
 		if b.Info()&types.IsInteger != 0 {
@@ -409,6 +514,9 @@ func (e *Exec) findLoops() []*ssa.BasicBlock {
 				if _, ok := in.(*ssa.DebugRef); ok {
 					continue
 				}
+				if _, ok := in.(*ssa.Phi); ok {
+					continue
+				}
 				p := in.Pos()
 				if !p.IsValid() {
 					continue
@@ -428,6 +536,9 @@ func (e *Exec) findLoops() []*ssa.BasicBlock {
 					best = i
 				}
 			}
+		}
+		if debugLoops {
+			fmt.Fprintf(os.Stderr, "loop header b%d (%s) pos range %v..%v candidates=%d best=%d\n", li.header.Index, li.header.Comment, e.P.Fset.Position(lo), e.P.Fset.Position(hi), len(al), best)
 		}
 		if best >= 0 {
 			li.ord = al[best].ord
@@ -464,6 +575,9 @@ func (e *Exec) collectDebugRefs() {
 		for i, in := range b.Instrs {
 			if d, ok := in.(*ssa.DebugRef); ok {
 				if obj := d.Object(); obj != nil {
+					if v, ok := obj.(*types.Var); !ok || v.IsField() {
+						continue // only local variables and parameters are addressable by name in invariants
+					}
 					e.debugVals[obj.Name()] = append(e.debugVals[obj.Name()], debugRef{d.X, d.IsAddr, b, i})
 				}
 			}
@@ -719,7 +833,7 @@ func (e *Exec) constVal(c *ssa.Const) Val {
 	case constant.Bool:
 		return BoolLit(constant.BoolVal(c.Value))
 	case constant.String:
-		return StrLit(constant.StringVal(c.Value))
+		return GoStr(constant.StringVal(c.Value))
 	case constant.Int:
 		return BigIntLit(c.Value.ExactString())
 	case constant.Float:
@@ -778,7 +892,7 @@ func (e *Exec) loadIn(l *Loc, st *State) Val {
 		return v
 	case LElem:
 		es := l.elemSort()
-		v := Select(Select(st.Get(elemComp(es), ArraySort(SInt, ArraySort(SInt, es))), l.Ref), l.Idx)
+		v := At(Select(st.Get(elemComp(es), ArraySort(SInt, ArraySort(SInt, es))), l.Ref), l.Off, l.Idx)
 		for _, p := range l.Path {
 			v = p.si.Get(v, p.idx)
 		}
@@ -852,11 +966,12 @@ func (e *Exec) store(l *Loc, v Val) {
 		comp := st.Get(name, ArraySort(SInt, ArraySort(SInt, es)))
 		arr := Select(comp, l.Ref)
 		nv := tv
+		abs := Add(l.Off, l.Idx)
 		if len(l.Path) > 0 {
-			old := Select(arr, l.Idx)
+			old := Select(arr, abs)
 			nv = setPath(old, l.Path, tv)
 		}
-		st.Set(name, Store(comp, l.Ref, Store(arr, l.Idx, nv)))
+		st.Set(name, Store(comp, l.Ref, Store(arr, abs, nv)))
 	case LGlobal:
 		e.oblige("frame", "global-write:"+l.Global.Name(), False, []string{"C13"}, "no store to a package-level variable")
 		st.Set(globalComp(l.Global.Pkg.Pkg.Name(), l.Global.Name()), tv)
@@ -885,7 +1000,21 @@ func (e *Exec) alloc() *Term {
 	st := e.curState
 	r := st.next
 	st.next = Add(st.next, IntLit(1))
+	allocRefs[r.id] = true
 	return r
+}
+
+// allocRefs: terms that denote freshly allocated (hence non-nil) references.
+var allocRefs = map[int]bool{}
+
+func knownNonNil(r *Term) bool {
+	if allocRefs[r.id] {
+		return true
+	}
+	if r.Op == "sub" {
+		return true
+	}
+	return false
 }
 
 // assumeZeroStruct states that the fields of a freshly allocated struct are zero.
@@ -940,7 +1069,9 @@ func (e *Exec) step(in ssa.Instruction) {
 			e.vals[x] = &Loc{Kind: LField, Ref: ref, Struct: st, Field: x.Field, Type: ft}
 		default:
 			ref := e.toTerm(base, x.X.Type())
-			e.safety("nilderef", Neq(ref, IntLit(0)))
+			if !knownNonNil(ref) {
+				e.safety("nilderef", Neq(ref, IntLit(0)))
+			}
 			e.vals[x] = &Loc{Kind: LField, Ref: ref, Struct: st, Field: x.Field, Type: ft}
 		}
 	case *ssa.Field:
@@ -959,7 +1090,7 @@ func (e *Exec) step(in ssa.Instruction) {
 		e.vals[x] = e.binop(x)
 	case *ssa.Store:
 		l := e.locOf(e.val(x.Addr), x.Addr.Type())
-		if l.Kind == LCell {
+		if l.Kind == LCell && !knownNonNil(l.Ref) {
 			e.safety("nilderef", Neq(l.Ref, IntLit(0)))
 		}
 		e.store(l, e.val(x.Val))
@@ -1050,7 +1181,7 @@ func (e *Exec) indexAddr(x *ssa.IndexAddr) Val {
 	case *types.Slice:
 		s := e.term(x.X)
 		e.safety("index", And(Le(IntLit(0), idx), Lt(idx, SLen(s))))
-		return &Loc{Kind: LElem, Ref: SArr(s), Idx: Add(SOff(s), idx), Type: t.Elem()}
+		return &Loc{Kind: LElem, Ref: SArr(s), Off: SOff(s), Idx: idx, Type: t.Elem()}
 	case *types.Pointer:
 		at, ok := t.Elem().Underlying().(*types.Array)
 		if !ok {
@@ -1067,7 +1198,7 @@ func (e *Exec) indexAddr(x *ssa.IndexAddr) Val {
 			ref = e.toTerm(base, x.X.Type())
 		}
 		e.safety("index", And(Le(IntLit(0), idx), Lt(idx, IntLit(at.Len()))))
-		return &Loc{Kind: LElem, Ref: ref, Idx: idx, Type: at.Elem()}
+		return &Loc{Kind: LElem, Ref: ref, Off: IntLit(0), Idx: idx, Type: at.Elem()}
 	}
 	unsupported("IndexAddr on %s", x.X.Type())
 	return nil
@@ -1148,7 +1279,7 @@ func (e *Exec) lookup(x *ssa.Lookup) Val {
 	has := And(Neq(m, IntLit(0)), Select(e.mapDom(st, m, k, v), key))
 	val := Ite(has, Select(e.mapVal(st, m, k, v), key), zeroOfSort(v))
 	mt := x.X.Type().Underlying().(*types.Map)
-	e.assumeWF(val, mt.Elem(), st)
+	e.assumeWFBound(val, mt.Elem(), e.boundFor(mapValComp(k, v)))
 	if x.CommaOk {
 		return Tuple{val, has}
 	}
@@ -1211,7 +1342,7 @@ func (e *Exec) next(x *ssa.Next) Val {
 		Implies(Not(okT), Forall([]*Term{bv}, Not(remaining(bv)), []*Term{Select(dom, bv)}, []*Term{Select(it.visited, bv)})))))
 	val := Select(e.mapVal(st, it.mapRef, k, v), key)
 	mt := x.Iter.(*ssa.Range).X.Type().Underlying().(*types.Map)
-	e.assumeWF(val, mt.Elem(), st)
+	e.assumeWFBound(val, mt.Elem(), e.boundFor(mapValComp(k, v)))
 	it.visited = Ite(okT, Store(it.visited, key, True), it.visited)
 	return Tuple{okT, key, val}
 }
@@ -1290,7 +1421,28 @@ func (e *Exec) sliceOp(x *ssa.Slice) Val {
 
 // elemAt returns s[i] in state st.
 func (e *Exec) elemAt(st *State, s *Term, i *Term, es Sort) *Term {
-	return Select(Select(e.elems(st, es), SArr(s)), Add(SOff(s), i))
+	return At(Select(e.elems(st, es), SArr(s)), SOff(s), i)
+}
+
+// At is arr[off+i], wrapped in a function symbol so that quantified facts about slice elements have triggers free of
+// arithmetic (at(a, off, i) matches syntactically in i). Defining axiom: at(a, off, i) = select(a, off+i).
+func At(arr, off, i *Term) *Term {
+	_, es := arr.Sort.ArrayParts()
+	if o, ok := intVal(off); ok {
+		if k, ok := intVal(i); ok {
+			r := Select(arr, IntLit(o+k))
+			if r.Op != "select" {
+				return r
+			}
+		}
+	}
+	name := "at_" + sortTag(es)
+	fn := DeclFun(name, []Sort{arr.Sort, SInt, SInt}, es)
+	if _, ok := TS.axioms[fn]; !ok {
+		a, o, k := BoundVar("a", arr.Sort), BoundVar("o", SInt), BoundVar("k", SInt)
+		AddInstAxiom(fn, []*Term{a, o, k}, App(fn, es, a, o, k), Eq(App(fn, es, a, o, k), Select(a, Add(o, k))))
+	}
+	return App(fn, es, arr, off, i)
 }
 
 // appendOne models append(s, x) for a single element (Go semantics incl. aliasing).
@@ -1371,11 +1523,11 @@ func (e *Exec) unop(x *ssa.UnOp) Val {
 	case token.MUL:
 		pv := e.val(x.X)
 		l := e.locOf(pv, x.X.Type())
-		if l.Kind == LCell {
+		if l.Kind == LCell && !knownNonNil(l.Ref) {
 			e.safety("nilderef", Neq(l.Ref, IntLit(0)))
 		}
 		v := e.load(l)
-		e.assumeWF(v, l.Type, e.curState)
+		e.assumeWFBound(v, l.Type, e.boundFor(e.compOfLoc(l)))
 		return v
 	case token.NOT:
 		return Not(e.term(x.X))
@@ -1392,8 +1544,14 @@ func (e *Exec) binop(x *ssa.BinOp) Val {
 	a, b := e.term(x.X), e.term(x.Y)
 	bt, _ := x.X.Type().Underlying().(*types.Basic)
 	isStr := bt != nil && bt.Info()&types.IsString != 0
+	if isStr && opaqueStrings && x.Op != token.EQL && x.Op != token.NEQ {
+		unsupported("string operator %s under opaque_strings", x.Op)
+	}
 	isInt := bt != nil && bt.Info()&types.IsInteger != 0
 	checkOvf := func(r *Term) {
+		if isSmall(a) && isSmall(b) {
+			return
+		}
 		if isInt && (bt.Kind() == types.Int || bt.Kind() == types.Int64) {
 			e.safety("overflow", And(Le(BigIntLit("-9223372036854775808"), r), Le(r, BigIntLit("9223372036854775807"))))
 		}
@@ -1452,6 +1610,28 @@ func (e *Exec) binop(x *ssa.BinOp) Val {
 	}
 	unsupported("binop %s", x.Op)
 	return nil
+}
+
+// isSmall: the term is a length, an index into a string/slice, a small constant, or a sum/difference of such; its
+// magnitude is bounded by the size of addressable memory, so 64-bit arithmetic on two small terms cannot overflow.
+func isSmall(t *Term) bool {
+	if v, ok := intVal(t); ok {
+		return v > -(1<<40) && v < (1<<40)
+	}
+	switch t.Op {
+	case "str.len", "str.indexof", "s_len", "s_cap", "s_off", "str.to_code":
+		return true
+	case "+", "-":
+		for _, a := range t.Args {
+			if !isSmall(a) {
+				return false
+			}
+		}
+		return true
+	case "ite":
+		return isSmall(t.Args[1]) && isSmall(t.Args[2])
+	}
+	return false
 }
 
 func (e *Exec) eqVals(a, b *Term, t types.Type) *Term {
